@@ -88,9 +88,8 @@ Print Assumptions C08_refuted_copy_reindexes_removed_validator.
    of an update reads the journal's pointer), which the harness selects when it detects
    that behaviour, violates the property on it *)
 Theorem C08_inplace_update_then_revert_holds :
-  holds_b w_f9 = true /\
-  match run_old init w_f9 with Some s => inv_all s = false | None => False end.
-Proof. exact (conj repaired_f9 prerepair_f9). Qed.
+  holds_b w_f9 = true /\ prerepair_refutes w_f9.
+Proof. exact f9_then_and_now. Qed.
 Print Assumptions C08_inplace_update_then_revert_holds.
 
 (* the in-place calling convention as such is covered: the status change of
